@@ -241,6 +241,7 @@ func randFixed(k NKind, rng *lib.Rng) *big.Int { return rng.BigBetween(k.Min(), 
 func c15(sum *lib.Summary) {
 	rng := lib.NewRng(*seed)
 	c15ctx = lib.NewInterp(nil)
+	satOnly := *only == "sat"
 	cw := &lib.CaseWriter{Dir: *dir, Prefix: "cases_C15", Header: "From CV Require Import C15.Cases.",
 		ElemType: "c15case", CheckFn: "check_c15", PerFile: 700}
 	nrand, nstraddle, ntriple, nscript := 250, 120, 500, 140
@@ -276,6 +277,9 @@ func c15(sum *lib.Summary) {
 	arith := func(k NKind, op fop, a, b *big.Int, force bool) {
 		for _, sat := range []bool{false, true} {
 			if sat && !satDeclared(k, op) {
+				continue
+			}
+			if satOnly && !sat {
 				continue
 			}
 			got := realArith(k, op, a, b, sat)
@@ -316,6 +320,9 @@ func c15(sum *lib.Summary) {
 		}
 	}
 	mod := func(k NKind, a, b *big.Int, force bool) {
+		if satOnly {
+			return
+		}
 		got := realMod(k, a, b)
 		ok, req := modAllowed(k, a, b, got)
 		sum.Count(k.Name + " %")
@@ -333,6 +340,9 @@ func c15(sum *lib.Summary) {
 		scripts = append(scripts, scr{k, fmt.Sprintf("access(all) fun main(): %s { let a: %s = %s; let b: %s = %s; return a %% b }", k.Name, k.Name, lit(k, a), k.Name, lit(k, b)), got})
 	}
 	neg := func(k NKind, a *big.Int, coq bool) {
+		if satOnly {
+			return
+		}
 		got := realNeg(k, a)
 		want := fitFixed(k, new(big.Int).Neg(a))
 		sum.Count(k.Name + " negate")
@@ -352,6 +362,9 @@ func c15(sum *lib.Summary) {
 		scripts = append(scripts, scr{k, fmt.Sprintf("access(all) fun main(): %s { let a: %s = %s; return -a }", k.Name, k.Name, lit(k, a)), got})
 	}
 	muldiv := func(k NKind, a, b, c *big.Int, force bool) {
+		if satOnly {
+			return
+		}
 		for mode := 0; mode < 4; mode++ {
 			got := realMulDiv(k, a, b, c, mode)
 			want := oracleMulDiv(k, a, b, c, mode)
@@ -381,6 +394,9 @@ func c15(sum *lib.Summary) {
 		}
 	}
 	compare := func(k NKind, a, b *big.Int) {
+		if satOnly {
+			return
+		}
 		x, y := k.Make(a).(interpreter.ComparableValue), k.Make(b).(interpreter.ComparableValue)
 		c := a.Cmp(b)
 		obs := []bool{bool(x.Less(c15ctx, y)), bool(x.LessEqual(c15ctx, y)), bool(x.Greater(c15ctx, y)), bool(x.GreaterEqual(c15ctx, y)),
